@@ -39,6 +39,8 @@ pub enum Op {
     Notify { src: u8, id: u8 },
     /// `Notifier::notify_with_custom_event_id`: every listener of the source's service
     NotifyAll { src: u8, id: u8 },
+    /// notifies every source, one after the other
+    NotifyEvery { id: u8 },
     /// drains the source outside of any callback
     Drain { src: u8 },
     /// `wait_and_process_once_with_timeout(cb, ZERO)`; `sleep`: 5 ms pause first (short timers must
@@ -94,10 +96,11 @@ macro_rules! must {
 }
 
 impl<S: Service> World<S> {
-    pub fn new(domain: &Domain, kinds: &[u8]) -> Result<Self, Failure> {
+    pub fn new(domain: Option<&Domain>, kinds: &[u8]) -> Result<Self, Failure> {
         let nservices = kinds.iter().map(|k| *k as usize).max().unwrap_or(0).min(2);
         let mut w = World { sources: vec![], notifiers: vec![], services: vec![], node: None };
         if nservices > 0 {
+            let domain = domain.expect("a domain for cases with listeners");
             let node = must!(NodeBuilder::new().config(&domain.config).create::<S>(), "node");
             for s in 0..nservices {
                 let name = must!(ServiceName::new(&format!("c20/ev{s}")), "service name");
@@ -321,9 +324,22 @@ fn run<S: Service + 'static>(c: &Case, obs: &mut Obs, k: &Counters) -> Result<()
 where
     <S::Event as Event<RelocatableCountingBitSet>>::Listener: SynchronousMultiplexing,
 {
+    // socket-only cases need no iceoryx2 domain at all
+    if c.sources.iter().all(|k| *k == 0) {
+        return interpret::<S>(c, obs, k, None);
+    }
     let domain = Domain::new();
-    let r = Ctx::guarded(|| interpret::<S>(c, obs, k, &domain));
-    domain.cleanup();
+    let r = Ctx::guarded(|| interpret::<S>(c, obs, k, Some(&domain)));
+    if r.is_ok() {
+        // after an orderly end only the domain-wide segment and the directories remain; the full
+        // `cleanup()` lists /dev/shm, which is expensive on a shared machine
+        unsafe {
+            let _ = iceoryx2::testing::remove_global_mgmt_segment::<S>(&domain.config);
+        }
+        let _ = std::fs::remove_dir_all(&domain.root);
+    } else {
+        domain.cleanup();
+    }
     r
 }
 
@@ -339,7 +355,7 @@ fn dur(far: bool) -> Duration {
     if far { FAR } else { SHORT }
 }
 
-fn interpret<S: Service + 'static>(c: &Case, obs: &mut Obs, k: &Counters, domain: &Domain) -> Result<(), Failure>
+fn interpret<S: Service + 'static>(c: &Case, obs: &mut Obs, k: &Counters, domain: Option<&Domain>) -> Result<(), Failure>
 where
     <S::Event as Event<RelocatableCountingBitSet>>::Listener: SynchronousMultiplexing,
 {
@@ -435,6 +451,11 @@ where
                 notify_one(&world, &mut pend, s, (*id).min(7))?;
             }
             Op::NotifyAll { src, id } => notify_all(&world, &mut pend, sx(*src), (*id).min(7))?,
+            Op::NotifyEvery { id } => {
+                for s in 0..nsrc {
+                    notify_one(&world, &mut pend, s, (*id).min(7))?;
+                }
+            }
             Op::Drain { src } => {
                 let s = sx(*src);
                 drain(&world, &mut pend, s)?;
